@@ -22,6 +22,7 @@ from sim.secure_gateway import SecureGateway
 from sim.world import Run
 
 ID = "C29"
+HANG_WATCHDOG = True
 LEVEL = "exploration"
 RUNS = {"quick": 3000, "thorough": 1200000}
 BUDGET = {"quick": 100.0, "thorough": 3300.0}
@@ -313,7 +314,19 @@ def run(plan: dict[str, Any]) -> dict[str, Any]:
             elif k == "remote_diag":
                 gw.send_wrapped(s, W.frame(rng.choice([0x0740, 0x0741, 0x0742, 0x0743]), bytes(8)), accept=False)
             elif k == "garbage_inner":
-                gw.send_wrapped(s, bytes((6, 0x10, 0x0F, 0xFF, 0, 8, 1, 2)), accept=False)
+                # correctly wrapped, but what is inside is not a well-formed frame: unknown service, known services with
+                # empty / truncated bodies, a description block of length 0, a bad header, nothing at all
+                garbage = rng.choice([
+                    bytes((6, 0x10, 0x0F, 0xFF, 0, 8, 1, 2)), W.frame(W.ROUTING_BUSY, b""), W.frame(W.TUNNEL_REQ, b"\x04"),
+                    W.frame(W.CONNECT_RES, b""), W.frame(W.SESSION_STATUS, b""), W.frame(W.TUNNEL_ACK, b"\x04\x01"),
+                    W.frame(W.SEARCH_RES, W.hpai("10.0.0.2", 3671) + bytes((0x00, 0x02))),
+                    W.frame(W.DISCONNECT_REQ, bytes((1, 0, 7, 1, 0, 0))), bytes((6, 0x20, 0x04, 0x20, 0, 8, 1, 2)), b"",
+                    W.frame(W.TUNNEL_REQ, bytes((4, 1, 0, 0, 0x29, 0x05)))])
+                if len(garbage) >= 4:
+                    # a lenient parser may accept some of these (unjudged); what is judged is that none of them raises and
+                    # that the counter value they use up is not lost for the frames behind them
+                    wrapped_svcs.add(struct.unpack(">H", garbage[2:4])[0])
+                gw.send_wrapped(s, garbage, accept=False)
             elif k == "session_response_replay":
                 s.conn.send_to_client(W.frame(W.SESSION_RES, struct.pack(">H", s.sid) + s.server_pub + bytes(16)))
 
